@@ -110,6 +110,9 @@ func (fc *FnCtx) queryTextMode(q *Query, light bool) string {
 	if strings.Contains(bs+spec, "(hexs ") {
 		out.WriteString(hexDecl)
 	}
+	if strings.Contains(bs+spec, "(reobj_") {
+		out.WriteString("(declare-fun reobj_span (Int Str) Bool)\n(declare-fun reobj_any (Int Str) Bool)\n")
+	}
 	if strings.Contains(bs+spec, "(rematchdyn ") {
 		out.WriteString("(declare-fun rematchdyn (Str Str) Bool)\n")
 	}
